@@ -136,7 +136,7 @@ func (configgen *ConfigGeneratorImpl) BuildDeltaClusters(proxy *model.Proxy, upd
 				continue
 			}
 
-			svcs, deleted = configgen.deltaFromServiceDiff(proxy, updates.Push, serviceClusters, subsetClusters)
+			svcs, deleted = configgen.deltaFromServiceDiff(proxy, updates.Push, serviceClusters, servicePortClusters, subsetClusters)
 			servicesDiffed = true
 		}
 		// Service and Destination Rule can select the same service. So we need to dedup the services.
@@ -153,12 +153,16 @@ func (configgen *ConfigGeneratorImpl) BuildDeltaClusters(proxy *model.Proxy, upd
 		// ahead of the events delivered so far: the scope of the proxy can already hold services (a Sidecar was deleted,
 		// a service was created or exported) whose own event is still on its way. When that event arrives, neither the
 		// scope nor the previous scope change any more and it is dropped as irrelevant to the proxy. So whatever the
-		// keys of this push are, build the services of the scope that the proxy watches no cluster for.
-		for _, svc := range configgen.deltaFromMissingServices(proxy, updates.Push, serviceClusters) {
+		// keys of this push are, build the services of the scope that the proxy watches no cluster for, and those
+		// whose ports are not the ports it watches clusters for (a Sidecar change can narrow or widen the ports of a
+		// service that stays in the scope).
+		svcs, deleted := configgen.deltaFromMissingServices(proxy, updates.Push, serviceClusters, servicePortClusters)
+		for _, svc := range svcs {
 			if !have.InsertContains(svc.Hostname.String()) {
 				services = append(services, svc)
 			}
 		}
+		deletedClusters.InsertAll(deleted...)
 	}
 	// ConfigsUpdated is a set: order the services by hostname (they are unique by hostname here), so that the order of
 	// the clusters in the delta response does not follow map iteration order.
@@ -267,6 +271,7 @@ func (configgen *ConfigGeneratorImpl) deltaFromServiceDiff(
 	proxy *model.Proxy,
 	push *model.PushContext,
 	serviceClusters map[string]sets.String,
+	servicePortClusters map[string]map[int][]string,
 	subsetClusters map[string]sets.String,
 ) ([]*model.Service, []string) {
 	var deletedClusters []string
@@ -303,6 +308,11 @@ func (configgen *ConfigGeneratorImpl) deltaFromServiceDiff(
 			services = append(services, service)
 			deletedClusters = append(deletedClusters, clusters.UnsortedList()...)
 			deletedClusters = append(deletedClusters, subsetClusters[service.Hostname.String()].UnsortedList()...)
+		} else if differ, stale := watchedPortsDiffer(service, servicePortClusters[service.Hostname.String()]); differ {
+			// The previous scope is not necessarily what the proxy was last sent (an earlier push may have been built
+			// from a context that already contained this change): the clusters it watches tell.
+			services = append(services, service)
+			deletedClusters = append(deletedClusters, stale...)
 		}
 	}
 
@@ -318,15 +328,40 @@ func (configgen *ConfigGeneratorImpl) deltaFromServiceDiff(
 	return services, deletedClusters
 }
 
-// deltaFromMissingServices returns the services of the proxy's scope for which the proxy watches no cluster yet.
+// watchedPortsDiffer compares the ports of a service with the ports the proxy watches clusters for (port -> cluster
+// names of that port). It reports whether they differ and returns the watched clusters of ports the service does not have.
+func watchedPortsDiffer(service *model.Service, portClusters map[int][]string) (bool, []string) {
+	differ := false
+	var stale []string
+	for port, clusters := range portClusters {
+		if _, exists := service.Ports.GetByPort(port); !exists {
+			differ = true
+			stale = append(stale, clusters...)
+		}
+	}
+	for i, port := range service.Ports {
+		// ports no cluster is built for (see buildOutboundClusters)
+		if port.Protocol == protocol.UDP || (service.UseInferenceSemantics() && i > 0) {
+			continue
+		}
+		if _, watched := portClusters[port.Port]; !watched {
+			differ = true
+		}
+	}
+	return differ, stale
+}
+
+// deltaFromMissingServices returns the services of the proxy's scope for which the proxy watches no cluster yet or whose
+// ports are not the ports it watches clusters for, and the watched clusters of ports those services do not have.
 func (configgen *ConfigGeneratorImpl) deltaFromMissingServices(
 	proxy *model.Proxy,
 	push *model.PushContext,
 	serviceClusters map[string]sets.String,
-) []*model.Service {
+	servicePortClusters map[string]map[int][]string,
+) ([]*model.Service, []string) {
 	// as in deltaFromServiceDiff: the scope of the proxy was never recomputed, which only happens in tests
 	if proxy.PrevSidecarScope == nil {
-		return nil
+		return nil, nil
 	}
 	var allServices []*model.Service
 	if features.FilterGatewayClusterConfig && proxy.Type == model.Router {
@@ -335,12 +370,16 @@ func (configgen *ConfigGeneratorImpl) deltaFromMissingServices(
 		allServices = proxy.SidecarScope.Services()
 	}
 	var services []*model.Service
+	var deletedClusters []string
 	for _, service := range allServices {
 		if _, ok := serviceClusters[service.Hostname.String()]; !ok {
 			services = append(services, service)
+		} else if differ, stale := watchedPortsDiffer(service, servicePortClusters[service.Hostname.String()]); differ {
+			services = append(services, service)
+			deletedClusters = append(deletedClusters, stale...)
 		}
 	}
-	return services
+	return services, deletedClusters
 }
 
 // deltaFromPeerAuthentication computes the delta clusters when a PeerAuthentication changes.
